@@ -11,12 +11,17 @@ fn sorted(mut r: Rows) -> Rows { r.sort(); r }
 
 pub fn crash(depth: usize) -> Value {
     let mut tried = 0u64;
+    // a table created first and dropped again sits before every other table: table ids are re-derived from the logged DDL at
+    // every recovery, so the drop has to survive the manifest rewrite of the first recovery for the second one to work
     let base: Vec<String> = vec![
+        "create table z(a int)".into(),
+        "insert into z values (1)".into(),
         "create table t(k int primary key, v int)".into(),
         "insert into t values (1,10),(2,20),(3,30),(4,40)".into(),
         "insert into t values (5,50),(6,60)".into(),
         "create table u(k int primary key, v int)".into(),
         "insert into u values (7,70)".into(),
+        "drop table z".into(),
     ];
     let t0: Rows = (1..=6).map(|k| vec![k.to_string(), (k * 10).to_string()]).collect();
     let u0: Rows = vec![vec!["7".into(), "70".into()]];
@@ -49,11 +54,14 @@ pub fn crash(depth: usize) -> Value {
         let stride = if multi_entry { 1 } else { match depth { 0 | 1 => (delta / 12).max(1), 2 => (delta / 60).max(1), _ => 1 } };
         let mut cuts: Vec<usize> = (0..=delta).step_by(stride).collect();
         for c in [1usize, 2, delta.saturating_sub(1), delta.saturating_sub(2), delta] { if !cuts.contains(&c) && c <= delta { cuts.push(c); } }
-        for cut in cuts {
+        // every cut is recovered directly; cuts inside the first bytes of the record (its `"Begin"`), and every third cut of the
+        // multi-entry records, also with a first recovery that dies right after it has read (and truncated) the manifest
+        let cuts: Vec<(usize, bool)> = cuts.iter().flat_map(|c| { let mut v = vec![(*c, false)]; if *c < 9 || (multi_entry && c % 3 == 0) { v.push((*c, true)); } v }).collect();
+        for (cut, killed_recovery) in cuts {
             tried += 1;
-            let input = || json!({"acknowledged": base, "interrupted": stmt, "manifest_bytes_of_its_record": delta, "manifest_cut_after_bytes": cut,
+            let input = || json!({"acknowledged": base, "interrupted": stmt, "manifest_bytes_of_its_record": delta, "manifest_cut_after_bytes": cut, "a_first_recovery_dies_after_reading_the_manifest": killed_recovery,
                 "after_recovery": after, "after_second_recovery": again, "target_block_size": block});
-            let (outs, _, _) = match h::sql_session_crash(block, &base, stmt, cut, &after, &again) { Ok(x) => x, Err(e) => return json!({"found": true, "tried": tried, "input": input(), "observed": format!("recovery failed: {e}")}) };
+            let (outs, _, _) = match h::sql_session_crash_ex(block, &base, stmt, cut, killed_recovery, &after, &again) { Ok(x) => x, Err(e) => return json!({"found": true, "tried": tried, "input": input(), "observed": format!("recovery failed: {e}")}) };
             let a = &outs[base.len() + 1..];
             let fail = |what: String| json!({"found": true, "tried": tried, "input": input(), "observed": what});
             // which state was recovered: old (statement invisible) or new (complete)?
